@@ -32,9 +32,10 @@ KIND_TAGS = {
     "charlist": ["charlist"],
     "varchars": VARCHARS,
     "newobj": ["new"],
+    "boolc": ["True", "False"],
+    "base": ["int_outside_2_16"] + [f"const:{b}" for b in range(2, 17)] + ["bool", "float", "str", "other", "none"],
     "classobj": ["classobj:Class", "classobj:Token"],
-    "varpre_small": ["", "Other", "str2", "other", "Empty", "Other|Alternation", "Empty|Other", "Other|other", "str2|Empty|Other",
-                     "Assertion|str1"],
+    "varpre_small": [""] + _OPK + ["Other|Alternation", "Empty|Other", "Other|other", "str2|Empty|Other", "Assertion|str1"],
     "varpre": VARPRE,
 }
 
